@@ -78,7 +78,8 @@ def judge(prog: Program, ref: Any, run: dict[str, Any], info: dict[str, Any]) ->
         cs = [int(e["result"].split(":")[2]) for e in ents]
         if any(b < a or (b == a and not iof) for a, b in zip(cs, cs[1:])):
             problems.append(("progress-lost", f"progress counters seen by successive attempts are not strictly increasing: {cs}", "progress"))
-    below = k != "inf" and int(k) + 1 < DOCUMENTED_MAX
+    # (a delivery repeated after an injected commit failure uses up one of the attempts as well)
+    below = k != "inf" and int(k) + 1 + iof < DOCUMENTED_MAX
     if n > DOCUMENTED_MAX + 1 + lost:
         problems.append(("retried-beyond-limit",
                          f"task executed {n} times (k={k}, progress={progress}); the documented maximum is {DOCUMENTED_MAX} attempts"
